@@ -1,6 +1,7 @@
 from __future__ import annotations
 
 import logging
+import os
 from typing import (
     IO,
     Callable,
@@ -46,7 +47,9 @@ from pyhf.typing import (
 
 log = logging.getLogger(__name__)
 
-FileCacheType = MutableMapping[str, Tuple[Union[IO[str], IO[bytes]], Set[str]]]
+FileCacheType = MutableMapping[
+    str, Tuple[Union[IO[str], IO[bytes]], Set[str], Union[Tuple[int, int, int], None]]
+]
 MountPathType = Iterable[Tuple[Path, Path]]
 ResolverType = Callable[[str], Path]
 
@@ -116,12 +119,18 @@ def import_root_histogram(
     path = path or ''
     path = path.strip('/')
     fullpath = str(resolver(filename))
-    if fullpath not in filecache:
+    # a file rewritten under the same path must not be served from the cache
+    try:
+        stat = os.stat(fullpath)
+        identity = (stat.st_ino, stat.st_size, stat.st_mtime_ns)
+    except OSError:
+        identity = None
+    if fullpath not in filecache or filecache[fullpath][2] != identity:
         f = uproot.open(fullpath)
         keys = set(f.keys(cycle=False))
-        filecache[fullpath] = (f, keys)
+        filecache[fullpath] = (f, keys, identity)
     else:
-        f, keys = filecache[fullpath]
+        f, keys, _ = filecache[fullpath]
 
     fullname = "/".join([path, name])
 
